@@ -7,7 +7,7 @@ from __future__ import annotations
 import copy
 from typing import Any
 
-from asphalt.core import CLIApplicationComponent, Component, add_resource
+from asphalt.core import CLIApplicationComponent, Component, add_resource, add_resource_factory
 
 REC: list = []
 
@@ -50,12 +50,17 @@ class Rec(Component):
         if self.kw.get("pdef", True):
             add_resource(rtype(fam, "p")(fam, f"{type(self).__name__}:{tag}:prepare-default"))
         add_resource(rtype(fam, "p")(fam, f"{type(self).__name__}:{tag}:prepare-named"), f"np_{self.family}{tag}")
+        # factory types are per tag, so that several components of one class never conflict
+        T = rtype(self.family + tag, "pf")
+        add_resource_factory(lambda T=T, fam=fam, tag=tag: T(fam, f"{type(self).__name__}:{tag}:prepare-factory"), types=T)
 
     async def start(self) -> None:
         tag = self.kw.get("tag", "")
         fam = self.family + (tag if self.per_tag else "")
         add_resource(rtype(fam, "s")(fam, f"{type(self).__name__}:{tag}:start-default"))
         add_resource(rtype(fam, "s")(fam, f"{type(self).__name__}:{tag}:start-named"), f"ns_{self.family}{tag}")
+        T = rtype(self.family + tag, "sf")
+        add_resource_factory(lambda T=T, fam=fam, tag=tag: T(fam, f"{type(self).__name__}:{tag}:start-factory"), types=T)
 
 
 class G(Rec):
